@@ -301,6 +301,16 @@ def envZ : Env := { params := [("x".toList, .int 5), ("y".toList, .int 3), ("z".
 example : execProg B envZ (compileProgram B (substIdent "x".toList (.ident sp0 "z".toList) ex)) =
     execProg B envZ (compileProgram B ex) :=
   replacement_invisible B ex_frag _ (fun _ => .ident ..) (fun _ h => by cases h) (noProgs_of_nil rfl) rfl
+-- replacement_invisible: a list literal for a variable bound to that list, `x + [3]` with x = [1, 2]
+def envL : Env := { params := [("x".toList, .list [.int 1, .int 2])] }
+def exL : Ast := .bin sp0 .add vx (.member sp0 (.list sp0 [lit 3]) [])
+theorem frag_lits (sp : Span) (is : List Int) : InFragment (.member sp (.list sp0 (is.map lit)) []) :=
+  .list _ _ _ (fun e he => by obtain ⟨i, _, rfl⟩ := List.mem_map.mp he; exact lit_frag i)
+example : execProg B envL (compileProgram B (substIdent "x".toList (.list sp0 ([1, 2].map lit)) exL)) =
+    execProg B envL (compileProgram B exL) :=
+  replacement_invisible B (.bin _ _ _ _ (var_frag _) (frag_lits _ [3])) _ (fun sp => frag_lits sp [1, 2])
+    (fun _ h => by cases h) (noProgs_of_nil rfl) rfl
+example : evalSpec exL envL = .list [.int 1, .int 2, .int 3] := by rfl
 -- a negative double is spelled `(-1.5)`
 example : (Lit.float 0xBFF8000000000000).prim sp0 =
     .parens sp0 (.negRun sp0 [sp0] (.member sp0 (.float sp0 0x3FF8000000000000) [])) := by rfl
